@@ -89,8 +89,9 @@ def eventList (T : Int → Int → Rat) (h w : Nat) (vr vc : Int) : List Event :
 def Event.px (vc : Int) (e : Event) : Int := e.x2 - 2 * vc
 def Event.py (vr : Int) (e : Event) : Int := 2 * vr - e.y2
 
-/-- 0 for a bearing in [0, π), 1 for [π, 2π) -/
-def half (px py : Int) : Int := if 0 < py ∨ (py = 0 ∧ 0 < px) then 0 else 1
+/-- 0 for a bearing in [0, π), 1 for [π, 2π); 2 for the null vector (never an event: the observer's cell has none) -/
+def half (px py : Int) : Int :=
+  if 0 < py ∨ (py = 0 ∧ 0 < px) then 0 else if py < 0 ∨ (py = 0 ∧ px < 0) then 1 else 2
 
 def cross (ax ay bx by_ : Int) : Int := ax * by_ - ay * bx
 
